@@ -33,7 +33,7 @@ func c14Scenarios(cfg runCfg) []Scenario {
 	for i := 0; i < n; i++ {
 		if cfg.mine(i) {
 			h := mix(cfg.seed, 1414, uint64(i))
-			fam := []string{"mixed", "context-first", "late-cleanup", "mixed"}[h%4]
+			fam := []string{"mixed", "context-first", "late-cleanup", "mixed", "context-poll", "overlap-exit"}[h%6]
 			out = append(out, Scenario{Family: fam, Seed: mix(cfg.seed, 14, uint64(i)), N: []int{2, 4, 8, 16, 32}[(h>>8)%5]})
 		}
 	}
@@ -98,14 +98,16 @@ func ctxID(c context.Context) uint64 {
 }
 
 type c14case struct {
-	ops         []c14op
-	ctxs        []context.Context
-	registered  *atomic.Int64 // final value is read after the case (and its late goroutines) finished
-	ran         atomic.Int64
-	ranTwice    atomic.Int64
-	failingOps  int
-	liveDuring  bool
-	lateCleanup bool
+	ops             []c14op
+	ctxs            []context.Context
+	registered      *atomic.Int64 // final value is read after the case (and its late goroutines) finished
+	ran             atomic.Int64
+	ranTwice        atomic.Int64
+	failingOps      int
+	liveDuring      bool
+	lateCleanup     bool
+	liveAfterCancel atomic.Int64
+	pollMu          sync.Mutex
 }
 
 var c14Ops = []string{"Helper", "Name", "Log", "Logf", "Failed", "Context", "Cleanup", "Failed", "Context", "Cleanup", "Error", "Errorf", "Fail"}
@@ -136,6 +138,63 @@ func c14Prop(sc Scenario, cases *[]*c14case) func(t *rapid.T) {
 			})
 		}
 		var lateWG sync.WaitGroup
+		if sc.Family == "context-poll" {
+			// goroutines that keep asking for the context across the end of the property: once it has been
+			// cancelled (property returned) they must never be handed a live one again
+			cs.lateCleanup = true
+			t.Cleanup(func() { lateWG.Wait() })
+			for g := 0; g < G; g++ {
+				lateWG.Add(1)
+				go func() {
+					defer lateWG.Done()
+					var seen []context.Context
+					sawCancelled := false
+					for i := 0; i < 200000; i++ {
+						c := t.Context()
+						if len(seen) == 0 || seen[len(seen)-1] != c {
+							seen = append(seen, c)
+						}
+						if c.Err() != nil {
+							if !sawCancelled {
+								sawCancelled = true
+								i = 200000 - 300 // a few hundred more calls after the cancellation was observed
+							}
+						} else if sawCancelled {
+							cs.liveAfterCancel.Add(1)
+						}
+					}
+					cs.pollMu.Lock()
+					cs.ctxs = append(cs.ctxs, seen...)
+					cs.pollMu.Unlock()
+				}()
+			}
+		}
+		if sc.Family == "overlap-exit" {
+			// goroutines that keep registering cleanups, failing-state reads and context calls while the property
+			// (a short state machine) steps and returns; they are stopped and awaited by the cleanup registered first
+			cs.lateCleanup = true
+			ctx := t.Context()
+			t.Cleanup(func() { lateWG.Wait() })
+			for g := 0; g < G; g++ {
+				lateWG.Add(1)
+				go func() {
+					defer lateWG.Done()
+					// until the context is cancelled, i.e. while the property steps, returns and rapid
+					// looks at the failure state; the cancellation precedes the first cleanup
+					for i := 0; ctx.Err() == nil; i++ {
+						register()
+						_ = t.Failed()
+						if i%64 == 0 {
+							time.Sleep(time.Microsecond)
+						}
+					}
+				}()
+			}
+			t.Repeat(map[string]func(*rapid.T){
+				"step": func(at *rapid.T) { rapid.Bool().Draw(at, "b") },
+				"":     func(at *rapid.T) { _ = at.Failed() },
+			})
+		}
 		if sc.Family == "late-cleanup" {
 			// goroutines that outlive the body: they wake when the context is cancelled, register cleanups while
 			// rapid is already running this case's cleanups, and are awaited by the cleanup registered first
@@ -295,6 +354,9 @@ func c14Run(t *testing.T, sc Scenario, res *Result) {
 		}
 		if len(ids) > 0 {
 			res.inc("cases_with_context")
+		}
+		if n := cs.liveAfterCancel.Load(); n > 0 {
+			res.violate(sc, "c14/ctx-resurrected", fmt.Sprintf("case %d (%s, %d goroutines): after the case's context had been cancelled, Context() handed out a live context %d times", i, sc.Family, sc.N, n), nil)
 		}
 		if !cs.liveDuring {
 			res.violate(sc, "c14/ctx-dead", fmt.Sprintf("case %d: a context was already cancelled while the property was running", i), nil)
